@@ -1,8 +1,8 @@
 (* C01 -- One-way sync makes every selected file byte-identical to its source.
    Model: Model/Engine.v (regular files and directories; links are C17's subject).
-   The statement at full strength says "... and carries its mtime"; the faithful model refutes that for
-   updates that go through the block-delta paths (C01_refuted_big_update_mtime = known finding C01-KF1),
-   so the proved postcondition carries that one disjunct explicitly. *)
+   Before the repair `fix: restore the source mtime ...` (known_findings.json, fixed) the faithful model refuted
+   the "carries its mtime" clause for updates through the block-delta paths; the model now follows the
+   repaired code and the postcondition is proved at full strength. *)
 From Coq Require Import NArith ZArith List Bool Lia.
 From SyModel Require Import Engine.
 From SyProofs Require Import Engine_proofs.
@@ -11,18 +11,18 @@ Import ListNotations.
 (* For every well-formed (filtered) source listing, every prior destination without a file where the source
    has a directory, every comparison mode, threshold and --delete setting: if the run is not refused and
    reports no per-file error, then every selected source entry exists in the destination with its kind;
-   every file that was absent or differed under the active comparison rule has the source's content and size,
-   and the source's mtime -- except (known finding) when it replaced a destination of at least c_big bytes,
-   where the mtime is the time of the run; files that did not differ are untouched. *)
-Theorem C01_postcondition : forall refuse c now U src dst,
+   every file that was absent or differed under the active comparison rule has the source's content, size
+   and mtime (whatever the size of the file it replaced); files that did not differ are untouched. *)
+Theorem C01_postcondition : forall refuse ds c now U src dst,
   src_wf src -> c_dry_run c = false -> dst [] = None ->
   (forall e, In e src -> se_is_dir e = true -> forall cc s t, dst (se_path e) <> Some (File cc s t)) ->
-  let r := run refuse c now U src dst in
+  (forall e, In e src -> se_is_dir e = false -> dst (se_path e) <> Some Dir) ->
+  let r := run refuse ds c now U src dst in
   r_refused r = false -> r_errors r = [] ->
   forall e, In e src ->
     exists x, r_fs r (se_path e) = Some x /\
       if se_is_dir e then x = Dir
-      else if needs c dst e then file_post c now dst e (Some x) else Some x = dst (se_path e).
+      else if needs c ds dst e then file_post e (Some x) else Some x = dst (se_path e).
 Proof. intros. apply run_post; assumption. Qed.
 Print Assumptions C01_postcondition.
 
@@ -37,23 +37,14 @@ Theorem C01_needs_update_table : forall c e dsz dmt,
 Proof. reflexivity. Qed.
 Print Assumptions C01_needs_update_table.
 
-(* Known finding C01-KF1 as a theorem about the model: an update over a destination of at least c_big bytes
-   leaves the right bytes but the time of the run as mtime *)
-Theorem C01_refuted_big_update_mtime :
-  exists c now U src dst, src_wf src /\ r_errors (run (fun _ _ _ => false) c now U src dst) = [] /\
-    exists e, In e src /\ r_fs (run (fun _ _ _ => false) c now U src dst) (se_path e) = Some (File (se_content e) (se_size e) now)
-              /\ now <> se_mtime e.
-Proof.
-  exists (mk_cfg false false 50 false false false false 100 100), 9000%Z, [[1%N]],
-         [mk_sentry [1%N] false 200 1000%Z 7 false],
-         (fun p => if peqb p [1%N] then Some (File 8 150 500%Z) else None).
-  split.
-  - split; [repeat constructor; cbn; tauto|]. split; [intros e [<-|[]]; discriminate|]. split.
-    + intros e f [<-|[]] [<-|[]] _ Hp. apply proper_neq in Hp. congruence.
-    + intros e a [<-|[]] (Ha & r & Hr & E). destruct a as [|a0 a]; [congruence|]. cbn in E. inversion E. destruct a; [|discriminate]. cbn in *. subst. congruence.
-  - split; [vm_compute; reflexivity|]. eexists. split; [left; reflexivity|]. split; [vm_compute; reflexivity | cbn; lia].
-Qed.
-Print Assumptions C01_refuted_big_update_mtime.
+(* the case that used to fail (C01-KF1, repaired): an update over a destination of at least c_big bytes now
+   carries the source's mtime *)
+Example C01_big_update_carries_mtime :
+  let c := mk_cfg false false 50 false false false false 100 100 in
+  let src := [mk_sentry [1%N] false 200 1000%Z 7 false] in
+  let dst : fs := fun p => if peqb p [1%N] then Some (File 8 150 500%Z) else None in
+  r_fs (run (fun _ _ _ => false) (fun _ => (0%N, 0%Z)) c 9000%Z [[1%N]] src dst) [1%N] = Some (File 7 200 1000%Z).
+Proof. vm_compute. reflexivity. Qed.
 
 (* ---- non-vacuity: a mixed tree (nested directory, create, small update, skip) satisfies the hypotheses ---- *)
 Definition ex_src : list sentry :=
@@ -63,7 +54,7 @@ Definition ex_dst : fs := fun p =>
   if peqb p [3%N] then Some (File 9 21 2000%Z) else if peqb p [4%N] then Some (File 7 30 3000500000000%Z)
   else if peqb p [5%N] then Some (File 1 1 1%Z) else None.
 Example ex_run :
-  let r := run (fun _ _ _ => false) (mk_cfg false false 50 false false false false 100 100) 9%Z [[3%N]; [4%N]; [5%N]] ex_src ex_dst in
+  let r := run (fun _ _ _ => false) (fun _ => (0%N, 0%Z)) (mk_cfg false false 50 false false false false 100 100) 9%Z [[3%N]; [4%N]; [5%N]] ex_src ex_dst in
   r_errors r = [] /\ r_events r = [(ACreate, [1%N]); (ACreate, [1%N; 2%N]); (AUpdate, [3%N]); (ASkip, [4%N])] /\
   r_fs r [1%N; 2%N] = Some (File 5 10 1000%Z) /\ r_fs r [3%N] = Some (File 6 20 2000%Z) /\ r_fs r [5%N] = Some (File 1 1 1%Z).
 Proof. vm_compute. repeat split. Qed.
